@@ -67,12 +67,10 @@ M = [
   "        return (x1 * zz2 - x2 * zz1) % p == 0 and (\n            y1 * zz2 * z2 - y2 * zz1 * z1\n        ) % p == 0\n",
   "        return (x1 * zz2 - x2 * zz1) % p == 0 and (\n            y1 * y1 * zz2 * zz2 * zz2 - y2 * y2 * zz1 * zz1 * zz1\n        ) % p == 0\n",
   "equality compares y^2, so P == -P"),
- ("c07-table-one-short", "C07", "src/ecdsa/ellipticcurve.py",
-  "        while i < order:\n            i *= 2\n", "        while i * 2 < order:\n            i *= 2\n",
-  "precomputed table has one entry too few"),
- ("c07-naf-digit", "C07", "src/ecdsa/ellipticcurve.py",
-  "                if nd >= 2:\n                    nd -= 4\n", "                if nd > 2:\n                    nd -= 4\n",
-  "NAF recoding uses digit 2"),
+ # two candidate mutants were dropped as EQUIVALENT (no observable change, correctly not flagged by C07):
+ #  - NAF digit test `nd >= 2` -> `nd > 2`: nd = k % 4 is 1 or 3 for odd k, never 2;
+ #  - lazy table loop `while i < order` -> `while i * 2 < order`: the loop bound is 4n while scalars are
+ #    reduced mod 2n, so the table has one spare entry.
  ("c07-muladd-mApB", "C07", "src/ecdsa/ellipticcurve.py",
   "                    X3, Y3, Z3 = _add(X3, Y3, Z3, mApB_X, mApB_Y, mApB_Z, p)\n",
   "                    X3, Y3, Z3 = _add(X3, Y3, Z3, pAmB_X, pAmB_Y, pAmB_Z, p)\n",
